@@ -16,7 +16,7 @@ RULE = ('Start from a well-typed boolean term (typed generator over a random sch
         'TypeError at the expression, condition and predicate entry points (mode b: predicate entry points only) and '
         'inside event predicates of properties. Non-trivial by construction; distinct = (mode, parent operator or '
         'function, slot, injected kind, depth).')
-RULE_ADDED = ' Since the seeding rounds: mode (c) - a bound variable required at two disjoint kinds (five nesting shapes, literal domains, set domains of operator/function results) with a well-typed twin; own-alias spelling of the second use.'
+RULE_ADDED = ' Since the seeding rounds: mode (c) - a bound variable required at two disjoint kinds (five nesting shapes, literal domains, set domains of operator/function results) with a well-typed twin; own-alias spelling of the second use; literal-domain clashes whose deciding use sits under a nested quantifier; the module-level parse_* helpers (1 case in 32, sibling helper of the same start rule called first).'
 ASSUMPTIONS = ['clashes mediated only by equality between two different references are not injected; "definite" means '
                'fixed by a parameter of a single base type in my signature tables (Appendix A.2/A.3)']
 FLOORS = {
@@ -304,12 +304,18 @@ def inject_bound_clash(rng, e):
         generic = gen.pick(rng, (('bin', '=', A.var(v), A.fld('qg')), ('bin', 'in', A.var(v), ('set', (A.fld('qg'), A.fld('qh')))),
                                  ('bin', '!=', A.fld('qg'), A.var(v))))
 
+        nested = rng.random() < 0.35  # the deciding occurrence sits in the condition of a nested quantifier
+
         def lblock(K):
-            return ('quant', q1, v, ldom, ('bin', 'and', generic, USES[K](A.var(v))))
+            u = USES[K](A.var(v))
+            if nested:
+                u = ('quant', q2, w, dom2, ('bin', 'and', ('bin', '>', A.var(w), A.num('0')), u))
+            return ('quant', q1, v, ldom, ('bin', 'and', generic, u))
         first = rng.random() < 0.5
         e2 = ('bin', 'and', lblock(Kc), e) if first else ('bin', 'and', e, lblock(Kc))
         twin = ('bin', 'and', lblock(Kd), e) if first else ('bin', 'and', e, lblock(Kd))
-        return e2, {'mode': 'c', 'shape': shape, 'first_use': Kd, 'second_use': Kc, 'via': 'literal-domain'}, twin
+        return e2, {'mode': 'c', 'shape': shape + ('-nested-use' if nested else ''), 'first_use': Kd, 'second_use': Kc,
+                    'via': 'literal-domain'}, twin
 
     def block(Ka, Kb):
         ua, ub = USES[Ka](A.var(v)), USES[Kb](A.var(v))
@@ -396,7 +402,22 @@ def run(ctx):
         else:
             feats.add('shape:slot-' + info['slot'])
         ctx.begin_case(feats)
-        o = hplapi.outcome(P[level].parse, text)
+        if i % 32 == 5:
+            # the module-level one-shot helpers are entry points too; before a predicate-level call the sibling
+            # expression-level helper is called on the well-typed twin (same start rule, different root demand)
+            from hpl import parser as hp
+
+            conv = {'property': hp.parse_property, 'predicate': hp.parse_predicate, 'condition': hp.parse_condition,
+                    'expression': hp.parse_expresion}
+            if level == 'condition':
+                hplapi.outcome(hp.parse_expresion, base_text)
+            elif level == 'expression':
+                hplapi.outcome(hp.parse_condition, base_text)
+            o = hplapi.outcome(conv[level], text)
+            feats = feats | {'api:convenience-function'}
+            ctx.count('convenience_function_cases')
+        else:
+            o = hplapi.outcome(P[level].parse, text)
         cls = hplapi.exc_class(o)
         sig = '|'.join(str(info.get(k)) for k in ('mode', 'slot', 'kind', 'depth', 'via', 'first_use', 'second_use', 'shape')) + '|' + level
         ctx.evaluation(sig, True)
